@@ -266,6 +266,7 @@ def check_programs(run, specs, label, mutate_every=0):
     plouts = [(sp, r.get("plugins", {}).get("c01_plugin")) for sp, key, r in metas]
     notupper = check_folds(run, plouts)
     check_genvar(run, plouts)
+    check_genpoints(run, plouts)
     run.log("%s: %d programs judged by check.wt in %.0fs" % (label, len(rqs), time.time() - t0))
     javac_cache = {}
     accepted = []
@@ -372,6 +373,102 @@ def check_genvar(run, plugin_outputs):
         else:
             run.violation(dict(rp, kind="broken-correspondence", judged_assignable=judged),
                           signature="gen_variable:model-differs", no_input=True)
+
+
+# ---------------------------------------------------------------------------------------------
+# decision points of the generator recorded by c01_plugin ("gp"): one driver request per program and kind
+def _gp_batches(plugin_outputs, kind, op, extra=None):
+    rqs, owner = [], []
+    for sp, pl in plugin_outputs:
+        if not pl or "error" in pl:
+            continue
+        calls = pl.get("gp", {}).get(kind, [])
+        if calls:
+            rq = {"op": op, "tt": pl["gp_tt"], "calls": calls}
+            if extra is not None:
+                rq["extra"] = extra
+            rqs.append(rq)
+            owner.append((sp, pl, calls))
+    ans = run_driver_sharded(rqs) if rqs else []
+    for (sp, pl, calls), a in zip(owner, ans):
+        if "error" in a:
+            raise common.HarnessError("driver error on %s of %s: %s" % (op, replay_key(sp), a["error"][:300]))
+        if len(a["r"]) != len(calls):
+            raise common.HarnessError("%s: %d answers for %d calls" % (op, len(a["r"]), len(calls)))
+        for c, r in zip(calls, a["r"]):
+            yield sp, pl, c, r
+
+
+def _subd(sp, tt, s, t):
+    """the specification-side decider on two entries of a recorded type table"""
+    base = add_bt({"lang": sp["lang"], "tt": tt, "decls": []})
+    return common.run_driver([dict(base, op="check.subd", s=s, t=t)])[0].get("r")
+
+
+class _Reporter:
+    """at most `cap` reports per signature and check run"""
+
+    def __init__(self, run, cap=2):
+        self.run, self.cap, self.n = run, cap, {}
+
+    def __call__(self, obj, signature, no_input):
+        self.n[signature] = self.n.get(signature, 0) + 1
+        if self.n[signature] <= self.cap:
+            self.run.violation(obj, signature=signature, no_input=no_input)
+
+
+def check_genpoints(run, plugin_outputs):
+    """recorded calls of the generator's decision points against the models of lean/Heph/Model/Gen*.lean"""
+    extra = [list(p) for p in export.extra_assignable_table()]
+    report = _Reporter(run)
+    for sp, pl in plugin_outputs:
+        if pl and "error" not in pl:
+            for k, n in pl.get("gp_n", {}).items():
+                run.cov.setdefault("decision_point_calls_total", {})
+                run.cov["decision_point_calls_total"][k] = run.cov["decision_point_calls_total"].get(k, 0) + n
+    # 1a. `_is_sigtype_compatible`: exact comparison of the answer
+    for sp, pl, c, r in _gp_batches(plugin_outputs, "sig", "check.sigcompat", extra):
+        same = r == c["out"]
+        run.tally("is_sigtype_compatible_calls", "%s:%s:%s:%s" % (
+            "signature" if c["sig"] else ("subtype" if c["sub"] else "exact"), c["mode"], c["out"],
+            "agree" if same else "DIFFER"))
+        run.cov["traces_validated_against_impl"] += 1
+        if not same:
+            rp = {"replay": replay_key(sp), "call": c, "model": r, "tt": pl["gp_tt"],
+                  "correspondence": "_is_sigtype_compatible vs sigtypeCompatible"}
+            report(dict(rp, kind="broken-correspondence"), "is_sigtype_compatible:model-differs", True)
+    # 1b. `_gen_func_call_ref`: the call refines the candidate list
+    for sp, pl, c, r in _gp_batches(plugin_outputs, "fcr", "check.funcallref", extra):
+        run.tally("gen_func_call_ref_calls", "%s:%s%s:%s" % (
+            r["stage"] if c["out"] is not None else "none:" + r["stage"], "subtype" if c["sub"] else "exact",
+            ":java-lambda" if c["jl"] else "", "refines" if r["ok"] else "DIFFERS"))
+        run.cov["traces_validated_against_impl"] += 1
+        if not r["ok"]:
+            rp = {"replay": replay_key(sp), "call": c, "model": r, "tt": pl["gp_tt"],
+                  "correspondence": "_gen_func_call_ref vs funcCallRefCandidates"}
+            judged = None
+            if c["out"] is not None and c["out"]["norecv"]:
+                v = [x for x in c["vars"] if x["name"] == c["out"]["name"]]
+                e = pl["gp_tt"][v[0]["t"]] if v else None
+                if e is not None and e["k"] == "p" and e["args"]:
+                    judged = _subd(sp, pl["gp_tt"], e["args"][-1], c["etype"])
+            if judged is False:
+                report(dict(rp, kind="failing-input", what="_gen_func_call_ref calls a variable whose return type is "
+                            "not assignable to the expected type (specification-side decider)"),
+                       "gen_func_call_ref:return-type-not-assignable", False)
+            else:
+                report(dict(rp, kind="broken-correspondence", judged_assignable=judged),
+                       "gen_func_call_ref:model-differs", True)
+    # 1c. `_gen_func_ref`: the reference is to one of the matching declarations, at the expected signature
+    for sp, pl, c, r in _gp_batches(plugin_outputs, "fref", "check.funcref"):
+        run.tally("gen_func_ref_calls", "%s:%s:%s" % (
+            "from-scope" if r["cands"] else "receiver-created", "refines" if r["ok"] else "DIFFERS",
+            "declarations-compatible" if r["compat"] else "DECLARATION-NOT-COMPATIBLE"))
+        run.cov["traces_validated_against_impl"] += 1
+        if not (r["ok"] and r["compat"]):
+            rp = {"replay": replay_key(sp), "call": c, "model": r, "tt": pl["gp_tt"],
+                  "correspondence": "_gen_func_ref vs funcRefCandidates / sigtypeCompatible"}
+            report(dict(rp, kind="broken-correspondence"), "gen_func_ref:model-differs", True)
 
 
 def check_folds(run, plugin_outputs):
